@@ -40,19 +40,21 @@ def tables(prop, tier, seed, ctx):
 
 STRESS_SCENARIOS = {
     # property -> (quick scenarios, quick seconds for the hammer, thorough scenarios, thorough seconds)
-    "C01": (["late", "blocking", "cancel"], 0, ["late", "blocking", "cancel", "hammer"], 60),
+    "C01": (["late", "blocking", "cancel", "backlog"], 0, ["late", "blocking", "cancel", "backlog", "hammer"], 60),
+    "C04": (["backlog"], 0, ["backlog"], 0),
+    "C19": (["blocking"], 0, ["blocking"], 0),
     "C02": (["blocking", "cancel"], 0, ["blocking", "cancel", "hammer"], 60),
     "C12": (["ids"], 0, ["ids"], 0),
     "C03": (["askjoin", "hammer", "idlewin", "blocking"], 6, ["askjoin", "hammer", "idlewin", "blocking"], 180),
     "C06": ([], 0, ["hammer"], 60),
-    "C08": (["idlewin"], 0, ["idlewin"], 0),
-    "C10": (["late", "blocking"], 0, ["late", "blocking"], 0),
+    "C08": (["idlewin", "backlog"], 0, ["idlewin", "backlog"], 0),
+    "C10": (["late", "blocking", "lazyfut"], 0, ["late", "blocking", "lazyfut"], 0),
     "C11": (["ids", "refs"], 0, ["ids", "refs"], 0),
     "C13": (["blocking"], 0, ["blocking"], 0),
-    "C07": (["refs", "cancel"], 0, ["refs", "cancel", "hammer"], 60),
-    "C16": (["lazyfut", "blocking"], 0, ["lazyfut", "blocking"], 0),
+    "C07": (["refs", "cancel", "backlog"], 0, ["refs", "cancel", "backlog", "hammer"], 60),
+    "C16": (["lazyfut", "blocking", "erasedblk"], 0, ["lazyfut", "blocking", "erasedblk"], 0),
     "C09": (["blocking", "cancel"], 0, ["blocking", "cancel"], 0),
-    "C17": (["blocking", "late"], 0, ["blocking", "late", "hammer"], 60),
+    "C17": (["blocking", "late"], 0, ["blocking", "late", "erasedblk", "hammer"], 60),
 }
 
 
@@ -128,7 +130,7 @@ ALL_FEATURES = ["rstracing", "metrics", "testutils", "deadlock"]   # harness nam
 FEATCORR = {
     # property -> (families, quick n, thorough n, quick feature sets, compare builds?)
     "C18": (["mixed", "shutdown", "burst", "timeouts", "handles", "idle"], 240, 1200, True),
-    "C20": (["mixed", "shutdown", "burst", "idle", "handles"], 300, 3000, False),
+    "C20": (["mixed", "shutdown", "burst", "idle", "handles", "streak"], 300, 3000, False),
 }
 
 
